@@ -110,9 +110,11 @@ async def execute(net, hyg, plan):
                 except (ConnectionError, asyncio.TimeoutError) as e:
                     data["status"] = "send-failed:" + type(e).__name__
             else:
-                got, st = await p.read_data(dr, wait=8.0)
+                got, st = await p.read_data(dr, wait=8.0, limit=plan.get("stall_after"))
                 data["got"], data["status"] = got, st
-                dw.close()
+                if st != "limit":
+                    dw.close()
+                # status "limit": the peer stops reading and keeps the socket open (stalled download)
 
         def send_abor():
             if not state["abor_sent"]:
@@ -201,7 +203,9 @@ async def execute(net, hyg, plan):
         for t in net.transports:
             if t.side == "accept" and t.conn.port != 2121 and (arrival is None or t.created_at < arrival - 1e-9):
                 mon["data_eof"] += 1
-                if t.state != "closed":
+                stalled_peer = (t.state == "closing" and t.conn.client.state == "open" and t.out.sendbuf
+                                and t.conn.client.held_bytes)
+                if t.state != "closed" and not stalled_peer:
                     viol.append({"key": f"data-channel-left-open:{phase}",
                                  "msg": f"{pos} ABOR after event {k}: server-side data connection c{t.conn.id} (accepted at "
                                         f"{t.created_at:.4f}, ABOR arrived {arrival}) is still {t.state}; peer status "
@@ -265,7 +269,7 @@ async def execute(net, hyg, plan):
             if not quiet:
                 viol.append({"key": f"unsolicited-reply:{phase}", "msg": f"{pos}: unsolicited bytes after follow-up: {buf[:80]!r}"})
         p.cut("fin")
-        await w.server.close()
+        await w.stop()
         return {"violations": viol, "monitors": mon,
                 "nevents": nevents if not plan.get("no_transfer") else 0,
                 "sig": sig_of([verb, mode, size, seq, len(data["got"]), data["sent"], phase]),
@@ -280,7 +284,7 @@ def run_plan(plan):
     res, info = W.run(main, seed=plan.get("seed", 0),
                       net_kwargs=dict(mss=plan.get("mss", 1460), latency=plan.get("latency", 0.001)))
     if res is None:
-        return {"inconclusive": info.get("deadlock") or info.get("error"), "trace": info.get("trace", "")}
+        return W.failed(info)
     le = [e for e in info["hygiene"].loop_errors]
     if le:
         res["violations"].append({"key": "exception-reached-loop", "msg": f"{le[:2]}"})
@@ -370,6 +374,10 @@ def gen_cases(tier, seed):
     for verb in ("RETR", "STOR", "LIST"):
         cases.append({"kind": "enum", "plan": {"verb": verb, "size": 2 * bs + 5, "connect": "before", "seed": seed,
                                                "backend_delay": [0.0015], "dir_entries": 8 if verb == "LIST" else 0}})
+    # stalled download: the peer stops reading a file larger than all buffers, then aborts
+    for fu in (["pwd+retr"] if tier == "quick" else fus):
+        cases.append({"kind": "enum", "stride": 9 if tier == "quick" else 3,
+                      "plan": {"verb": "RETR", "size": 500000, "connect": "before", "stall_after": 20000, "seed": seed, "followup": fu}})
     for fu in fus:
         cases.append({"kind": "single", "plan": {"verb": "RETR", "size": 0, "no_transfer": True, "followup": fu, "seed": seed}})
     return cases
